@@ -88,13 +88,13 @@ Lemma evicted_local : forall k s, evicting k = true -> (is_group s = false -> co
 Proof.
   intros k s Ek NG. ds s. cbn in NG. destruct grp.
   - clear NG. destruct k; try discriminate; destruct stp; destruct dc0;
-      cbv [rejoin_after_error resched schedule_rejoin new_timer on_group_leave seq emit upd fst snd
+      cbv [rejoin_after_error resched schedule_rejoin new_timer on_group_leave seq emit upd fst snd set_escaped
            stopping rejoin_needed dc timers next_timer consumers is_group member set_consumers set_member
            set_rejoin_needed set_dc set_timers set_next_timer];
       (split; [reflexivity|split; [|intros; try reflexivity; destruct H; discriminate]]);
       intros c Hc; rewrite ?in_app_iff; left; apply in_map_iff; exists c; auto.
   - specialize (NG eq_refl). subst cs. destruct k; try discriminate; destruct stp; destruct dc0;
-      cbv [rejoin_after_error resched schedule_rejoin new_timer on_group_leave seq emit upd fst snd
+      cbv [rejoin_after_error resched schedule_rejoin new_timer on_group_leave seq emit upd fst snd set_escaped
            stopping rejoin_needed dc timers next_timer consumers is_group member set_consumers set_member
            set_rejoin_needed set_dc set_timers set_next_timer];
       (split; [reflexivity|split; [intros c []|intros; try reflexivity; destruct H; discriminate]]).
